@@ -272,4 +272,23 @@ theorem get_const_period_eq (e : DExt κ α) (h3 : 3 ≤ e.shape.length) (h5 : e
        | [], h3, _ | [_], h3, _ | [_, _], h3, _ => simp at h3
        | _ :: _ :: _ :: _ :: _ :: _ :: _, _, h5 => simp at h5)
 
+
+/-! ### `meta_valid` -/
+
+/-- **`meta_valid` as written in dcmmeta.py is the model's `metaValid`** (the header reads and the
+    comparison of the slice directions are the same parameters on both sides); slice dims in range,
+    and a fourth axis on both sides where `('vector', 'slices')` reads it -/
+theorem meta_valid_eq (e : ExtGeom) (img : Img) (c : Cls)
+    (hisd : ∀ d, img.sliceDim = some d → d < img.shape.length)
+    (hesd : ∀ d, e.sliceDim = some d → d < e.shape.length)
+    (h4 : c = vslices → 3 < e.shape.length ∧ 3 < img.shape.length) :
+    Py.meta_valid img.shape e.shape img.sliceDim (e.sliceDim.map fun d => e.shape[d]!) img.aligned c =
+      .ok (metaValid e img c) := by
+  obtain ⟨eshape, esd⟩ := e
+  obtain ⟨ishape, isd, al⟩ := img
+  cases c <;> cases isd <;> cases esd <;>
+    simp_all [Py.meta_valid, metaValid, pure, Except.pure, bind, Except.bind, throw, throwThe, MonadExceptOf.throw] <;>
+    (split <;> simp_all)
+
+
 end Src
